@@ -500,8 +500,9 @@ def goodTitle (t : Str) : Bool :=
   parseTitle (strip (printTitle t)) == t && (secStart (printTitle t)).isNone && !isBlank (printTitle t)
     && ['['].isPrefixOf (strip (printTitle t))
 
-/-- header values additionally print as something non-empty (an empty text value is written as `key = `, whose
-trailing blank the header reader strips before splitting) -/
+/-- values that print as something non-empty: their written header line is unchanged by the reader's `strip`
+(`strip_printKV`). No longer a well-formedness requirement: `header_line` treats the empty text separately (it is
+written as `key = `, stripped to `key =`, and typed as the empty text again). -/
 def headerVal (v : Val) : Bool := stableVal v && !v.fmt.isEmpty
 
 theorem classify_text_strip (s : Str) (h : classify s = .text s) : strip s = s := by
@@ -559,6 +560,65 @@ theorem strip_printKV (k : Str) (v : Val) (hk : goodKey k = true) (hv : headerVa
       rw [this] at hc; injection hc with hc; subst hc
       exact fmt_last_not_ws v hv.1 x hl
 
+/-- a stable value that prints as nothing is the empty text -/
+theorem fmt_nil_text (v : Val) (hs : stableVal v = true) (he : v.fmt = []) : v = .text [] := by
+  cases v with
+  | int ds =>
+    simp only [stableVal, canonI, Bool.and_eq_true] at hs
+    simp only [Val.fmt] at he
+    exact absurd he ((allDigits_iff ds).1 hs.1).1
+  | flt i f =>
+    simp only [stableVal, Bool.and_eq_true, Bool.not_eq_true'] at hs
+    simp only [Val.fmt, pyRepr_plain i f hs.2] at he
+    simp at he
+  | text s => simp only [Val.fmt] at he; rw [he]
+  | tilt n i f => simp [stableVal] at hs
+
+/-- **a written header line, after the reader's `strip`**, still reads as that key and value — also when the value
+prints as nothing (`key = ` is stripped to `key =` and typed as the empty text again) -/
+theorem header_line (k : Str) (v : Val) (hk : goodKey k = true) (hv : stableVal v = true) :
+    (['['].isPrefixOf (strip (printKV k v))) = false ∧ parseKV (strip (printKV k v)) = some (k, v) := by
+  by_cases he : v.fmt = []
+  · have hvt := fmt_nil_text v hv he
+    subst hvt
+    have hk' := (goodKey_iff k).1 hk
+    obtain ⟨hne, hs, heq, hb⟩ := hk'
+    obtain ⟨hh, _⟩ := strip_ends k hs hne
+    have e : printKV k (.text []) = (k ++ [' ', '=']) ++ [' '] := by simp [printKV, Gen.C17.kvSep, Val.fmt]
+    have hs2 : strip (k ++ [' ', '=']) = k ++ [' ', '='] := by
+      apply strip_eq_self
+      · intro c hc
+        cases k with
+        | nil => exact absurd rfl hne
+        | cons x t => simp at hc; subst hc; exact hh x rfl
+      · intro c hc
+        have : (k ++ [' ', '=']).getLast? = some '=' := by
+          have : k ++ [' ', '='] = (k ++ [' ']) ++ ['='] := by simp
+          rw [this, List.getLast?_concat]
+        rw [this] at hc; injection hc with hc; subst hc; decide
+    have hstrip : strip (printKV k (.text [])) = k ++ [' ', '='] := by
+      rw [e]; exact strip_append_space _ hs2 (by simp)
+    rw [hstrip]
+    constructor
+    · cases k with
+      | nil => exact absurd rfl hne
+      | cons x t =>
+        have hcb : ('[' == x) = false := by simpa [List.isPrefixOf] using hb
+        simp [List.isPrefixOf, hcb]
+    · have h1 : '=' ∉ k ++ [' '] := by
+        intro h; rcases List.mem_append.1 h with h | h
+        · exact heq h
+        · simp at h
+      have e2 : k ++ [' ', '='] = (k ++ [' ']) ++ '=' :: [] := by simp
+      rw [e2]
+      simp only [parseKV, splitEq_append _ _ h1, splitEq, strip_append_space k hs hne]
+      rfl
+  · have hhv : headerVal v = true := by
+      simp only [headerVal, Bool.and_eq_true, Bool.not_eq_true', List.isEmpty_eq_false_iff]
+      exact ⟨hv, he⟩
+    rw [strip_printKV k v hk hhv]
+    exact ⟨(kv_line_facts k v hk).2.1, parseKV_printKV k v hk hv⟩
+
 theorem parseHeader_titles : ∀ (ts : List Str), (∀ t ∈ ts, goodTitle t = true) →
     parseHeader (ts.map (fun t => strip (printTitle t))) = some (ts, [])
   | [], _ => rfl
@@ -569,24 +629,22 @@ theorem parseHeader_titles : ∀ (ts : List Str), (∀ t ∈ ts, goodTitle t = t
     simp only [List.map_cons, parseHeader, ih, ht.2, if_true, ht.1.1.1]
 
 theorem parseHeader_info (ts : List Str) (hts : ∀ t ∈ ts, goodTitle t = true) :
-    ∀ (info : List (Str × Val)), (∀ kv ∈ info, goodKey kv.1 = true ∧ headerVal kv.2 = true) → (info.map (·.1)).Nodup →
-      parseHeader (info.map (fun kv => printKV kv.1 kv.2) ++ ts.map (fun t => strip (printTitle t))) = some (ts, info)
+    ∀ (info : List (Str × Val)), (∀ kv ∈ info, goodKey kv.1 = true ∧ stableVal kv.2 = true) → (info.map (·.1)).Nodup →
+      parseHeader (info.map (fun kv => strip (printKV kv.1 kv.2)) ++ ts.map (fun t => strip (printTitle t))) = some (ts, info)
   | [], _, _ => by simpa using parseHeader_titles ts hts
   | kv :: info, h, hnd => by
     have hkv := h kv (by simp)
     simp only [List.map_cons, List.nodup_cons] at hnd
     have ih := parseHeader_info ts hts info (fun x hx => h x (by simp [hx])) hnd.2
-    have hv : stableVal kv.2 = true := by
-      have := hkv.2; simp only [headerVal, Bool.and_eq_true] at this; exact this.1
-    have hfacts := kv_line_facts kv.1 kv.2 hkv.1
+    have hfacts := header_line kv.1 kv.2 hkv.1 hkv.2
     have hany : (info.any (fun e => e.1 == kv.1)) = false := by
       rw [Bool.eq_false_iff]
       intro hc
       simp only [List.any_eq_true, beq_iff_eq] at hc
       obtain ⟨e, he, hek⟩ := hc
       exact hnd.1 (List.mem_map.2 ⟨e, he, hek⟩)
-    simp only [List.map_cons, List.cons_append, parseHeader, ih, hfacts.2.1, Bool.false_eq_true, if_false,
-      parseKV_printKV kv.1 kv.2 hkv.1 hv, hany]
+    simp only [List.map_cons, List.cons_append, parseHeader, ih, hfacts.1, Bool.false_eq_true, if_false,
+      hfacts.2, hany]
 
 /-! ### sections -/
 
@@ -791,7 +849,7 @@ theorem filter_titles : ∀ (ts : List Str), (∀ t ∈ ts, goodTitle t = true) 
 
 /-- well-formedness of an Mdoc object: what the reader itself produces for files of the grammar -/
 structure WF (m : Mdoc) : Prop where
-  info : ∀ kv ∈ m.info, goodKey kv.1 = true ∧ headerVal kv.2 = true
+  info : ∀ kv ∈ m.info, goodKey kv.1 = true ∧ stableVal kv.2 = true
   infoNodup : (m.info.map (·.1)).Nodup
   titles : ∀ t ∈ m.titles, goodTitle t = true
   sid : m.sid = zvalue ∨ m.sid = frameset
@@ -831,7 +889,7 @@ theorem parse_print (m : Mdoc) (h : WF m) (rows : List Row) (hsub : ∀ r ∈ ro
     -- header lines
     have hfilter : ((m.info.map (fun kv : Str × Val => printKV kv.1 kv.2) ++ [[]] ++ m.titles.flatMap (fun t => [printTitle t, []])).filter
         (fun l => !isBlank l)).map strip
-        = m.info.map (fun kv : Str × Val => printKV kv.1 kv.2) ++ m.titles.map (fun t => strip (printTitle t)) := by
+        = m.info.map (fun kv : Str × Val => strip (printKV kv.1 kv.2)) ++ m.titles.map (fun t => strip (printTitle t)) := by
       rw [List.filter_append, List.filter_append, filter_titles m.titles h.titles]
       have h1 : (m.info.map (fun kv : Str × Val => printKV kv.1 kv.2)).filter (fun l => !isBlank l) = m.info.map (fun kv : Str × Val => printKV kv.1 kv.2) := by
         apply List.filter_eq_self.2
@@ -840,10 +898,7 @@ theorem parse_print (m : Mdoc) (h : WF m) (rows : List Row) (hsub : ∀ r ∈ ro
         rw [(kv_line_facts kv.1 kv.2 (h.info kv hkv).1).1]; rfl
       have h2 : ([[]] : List Str).filter (fun l => !isBlank l) = [] := by decide
       rw [h1, h2, List.append_nil, List.map_append, List.map_map, List.map_map]
-      congr 1
-      apply List.map_congr_left
-      intro kv hkv
-      exact strip_printKV kv.1 kv.2 (h.info kv hkv).1 (h.info kv hkv).2
+      rfl
     have hcols : ((body m.sid m.cols r0).drop 1).map colName = m.cols := by
       have hr0 := hrows r0 (by simp)
       simp only [goodRow, Bool.and_eq_true, beq_iff_eq] at hr0
@@ -863,7 +918,7 @@ theorem parse_print (m : Mdoc) (h : WF m) (rows : List Row) (hsub : ∀ r ∈ ro
 /-! ### the hypotheses as one executable test (run by the driver on every generated file) -/
 
 def wfb (m : Mdoc) : Bool :=
-  m.info.all (fun kv => goodKey kv.1 && headerVal kv.2) && decide ((m.info.map (·.1)).Nodup) && m.titles.all goodTitle &&
+  m.info.all (fun kv => goodKey kv.1 && stableVal kv.2) && decide ((m.info.map (·.1)).Nodup) && m.titles.all goodTitle &&
   (m.sid == zvalue || m.sid == frameset) && m.cols.all goodKey && decide m.cols.Nodup && m.cols.contains Gen.C17.tiltKey &&
   m.rows.all (goodRow m.cols)
 
